@@ -144,6 +144,9 @@ def run(ctx: Ctx):
     if got is None:
         return
     m, f, models, name = got
+    from .c01 import conditional_builder
+
+    conditional_builder(ctx, "R07.a")  # the guard of the stiff branch is built with sympytools.Conditional (see R06.a)
     add = None
     ctx.rule("R07.b", "stiff_states reaches hybrid_rush_larsen only, from get_code through add_schemes", floor=4)
     add = sm.func("cli/utils.py", "add_schemes")
